@@ -5,4 +5,4 @@ Extraction "C07_m.ml" pdf_uniform cdf_uniform pdf_gauss cdf_gauss quantile_gauss
   pmf_binomial cdf_binomial pmf_poisson cdf_poisson inv_cdf_poisson pdf_chi_square cdf_chi_square
   pdf_chi_bar_square cdf_chi_bar_square pdf_exponential cdf_exponential pdf_maxwell_boltzmann
   cdf_maxwell_boltzmann log_likelihood_poisson likelihood_poisson log_likelihood_poisson_binned
-  likelihood_poisson_binned lik_answer lik_session gaussian_kernel perform_kde Z.of_nat Z.to_nat.
+  likelihood_poisson_binned lik_answer lik_session gaussian_kernel perform_kde inv_erf_fn quantile_gauss_lib Z.of_nat Z.to_nat.
